@@ -46,17 +46,21 @@ Definition c03_separate_proved : list string :=
   ; "DecodeMdat"   (* C03_mdat_pair_agree *)
   ; "DecodeStsd"   (* C03_stsd_pair_agree_canonical *)
   ; "DecodeMfhd"   (* C03_mfhd_pair_agree *)
-  ; "DecodeTfdt"   (* C03_fragment_progs_local + C03_prog_pair_agree *) ].
+  ; "DecodeTfdt"   (* C03_fragment_progs_local + C03_prog_pair_agree *)
+  ; "DecodeDref"   (* C03_counted_pairs_agree_canonical *)
+  ; "DecodeAudioSampleEntry" (* mp4a enca ac-3 ec-3: C03_entry_pairs_agree_canonical *) ].
 (* separately written pairs that are explored only (both paths run on every harvested / generated box by the search) *)
 Definition c03_separate_explored : list string :=
-  [ "DecodeAudioSampleEntry"; "DecodeDref"; "DecodeVttc" ].
+  [ "DecodeVttc" ].
 (* delegating pairs whose SR decoder is NOT position-relative, with their own pair theorem *)
 Definition c03_delegating_nonrelative_proved : list string :=
-  [ "DecodeVisualSampleEntry"  (* C03_vse_pair_agree_canonical *) ].
+  [ "DecodeVisualSampleEntry"  (* C03_vse_pair_agree_canonical *)
+  ; "DecodeTrep"               (* C03_counted_pairs_agree_canonical *)
+  ; "DecodeWvtt"               (* C03_entry_pairs_agree_canonical *) ].
 (* delegating pairs whose SR decoder is NOT position-relative (SetPos, GetPos outside differences, LookAhead, children decoded with
    DecodeBoxSR, a decoder table): the delegation shape is still REQUIRED of them; that the SR decoder behaves the same on a private body reader is explored *)
 Definition c03_delegating_nonrelative_explored : list string :=
-  [ "DecodeEsds"; "DecodeEvte"; "DecodeMeta"; "DecodeSgpd"; "DecodeStpp"; "DecodeTrep"; "DecodeWvtt" ].
+  [ "DecodeEsds"; "DecodeEvte"; "DecodeMeta"; "DecodeSgpd"; "DecodeStpp" ].
 (* container twins whose SR decoder additionally returns sr.AccError() (edts sinf stbl): on canonical strings the test never fires
    (C03_twin_accerr_canonical); none is left as explored *)
 Definition c03_twin_accerr_explored : list string := [ ].
@@ -91,12 +95,13 @@ Definition count_cov (c : coverage) (l : list decfact) : nat :=
 
 (* encoders *)
 Definition c03_enc_separate_proved : list string :=
-  [ "MdatBox" (* C03_mdat_enc_agree *); "StsdBox" (* C03_stsd_enc_agree *); "VisualSampleEntryBox" (* C03_vse_enc_agree *) ].
+  [ "MdatBox" (* C03_mdat_enc_agree *); "StsdBox" (* C03_stsd_enc_agree *); "VisualSampleEntryBox" (* C03_vse_enc_agree *)
+  ; "DrefBox"; "TrepBox"; "WvttBox"; "AudioSampleEntryBox" (* header, fixed bytes, children: C03_pfx_enc_agree *) ].
 Definition c03_enc_twin_proved : list string :=
   [ "File"; "MediaSegment"; "Fragment"; "InitSegment" (* C03_encode_agree: the four are modelled in C03Model.v *)
   ; "MoofBox" (* C03_encode_state_agree: hmoof_w / hmoof_sw of C03EncHistModel.v *) ].
 Definition c03_enc_separate_explored : list string :=
-  [ "AudioSampleEntryBox"; "DrefBox"; "MetaBox"; "TrepBox"; "WvttBox" ].
+  [ "MetaBox" ].
 (* Encode = `b.m(); <the delegation pattern>` with EncodeSW starting with the same `b.m()`: equal provided m is idempotent
    (C03_enc_prelude_agree); the types whose prelude is known to be idempotent *)
 Definition c03_enc_prelude_proved : list string :=
